@@ -134,3 +134,29 @@ Definition own_at (h : handle) (configured : N) (ps : peer_settings) : N :=
       let v3 := src_value lim_flow_server_stream v2 ps in
       if split then src_value lim_flow_split_recv v3 ps else v3
   end.
+
+(* ---------------------------------------------------------------- which settings cell a SENDING handle reads *)
+(* settings() reads the handle's own Arc<SharedState>; every constructor hop either shares the holder's cell (Arc clone /
+   move) or makes a fresh one, which never receives the peer's SETTINGS (the lim_state facts of Gen/GenLimits.v) *)
+Definition cell_view (c : lim_cell) (ps : peer_settings) : peer_settings :=
+  match c with
+  | SharedCell => ps
+  | FreshCell => None
+  end.
+
+Inductive send_handle :=
+| SRequest (via_clone : bool)                          (* SendRequest::send_request, primary handle or a clone *)
+| SClientStream (via_clone split : bool)               (* client RequestStream::send_trailers, possibly on the send half of split() *)
+| SServerStream (split : bool).                        (* server RequestStream::send_response / send_trailers *)
+
+Definition settings_seen_by (h : send_handle) (ps : peer_settings) : peer_settings :=
+  match h with
+  | SRequest via_clone => if via_clone then cell_view lim_state_clone ps else ps
+  | SClientStream via_clone split =>
+      let v1 := if via_clone then cell_view lim_state_clone ps else ps in
+      let v2 := cell_view lim_state_client_stream v1 in
+      if split then cell_view lim_state_split_send v2 else v2
+  | SServerStream split =>
+      let v2 := cell_view lim_state_server_stream (cell_view lim_state_resolver ps) in
+      if split then cell_view lim_state_split_send v2 else v2
+  end.
